@@ -133,8 +133,8 @@ def dequeue (q : Q) : Except Fault (Option Bytes × Q) := do
   if d = 0 then pure (none, q) else
   let q ← lock q
   match q.queue with
-  | [] => .error .panic                       -- q.queue[0]
-  | b :: rest =>
+  | [] => pure (none, unlock q)               -- `if len(q.queue) == 0 { return nil }` (re-check under the lock)
+  | b :: rest =>                              -- b := q.queue[0]
     let q := { q with queue := rest }         -- q.queue = q.queue[1:]
     let q := { q with depth := q.depth - 1 }
     let q ← republish q
@@ -213,6 +213,7 @@ inductive CPc where
   | gTest (k : Kind) (d : Int)    -- about to test `d == 0` (return nil) else go on
   | lock (k : Kind)               -- about to `q.lock.Lock()`
   -- Dequeue
+  | dqChk                         -- about to test `len(q.queue) == 0` under the lock (return nil)
   | dqIdx                         -- about to `b := q.queue[0]`
   | dqSlice (b : Bytes)           -- about to `q.queue = q.queue[1:]`
   | dqDec (b : Bytes)             -- about to `q.depth--`
@@ -303,8 +304,11 @@ def stepC (s : St) (call : Call) : Option St :=
     else some { s with cpc := .lock k }
   | .lock k =>
     if s.lock = none then
-      some { s with lock := some .cons, cpc := match k with | .dq => .dqIdx | .da => .daTake }
+      some { s with lock := some .cons, cpc := match k with | .dq => .dqChk | .da => .daTake }
     else none
+  | .dqChk => match s.queue with
+    | [] => some { s with cpc := .unlock (.deq none) }
+    | _ :: _ => some { s with cpc := .dqIdx }
   | .dqIdx => match s.queue with
     | [] => some { s with cpc := .panicked }
     | b :: _ => some { s with cpc := .dqSlice b }
@@ -402,8 +406,8 @@ def PPc.rem : PPc → Nat
 /-- upper bound on the steps the consumer still has to take before its call returns -/
 def CPc.rem : CPc → Nat
   | .idle => 0 | .panicked => 0
-  | .gRecv _ => 10 | .gSend _ _ => 9 | .gTest _ _ => 8 | .lock _ => 7
-  | .dqIdx => 6 | .dqSlice _ => 5 | .dqDec _ => 4
+  | .gRecv _ => 11 | .gSend _ _ => 10 | .gTest _ _ => 9 | .lock _ => 8
+  | .dqChk => 7 | .dqIdx => 6 | .dqSlice _ => 5 | .dqDec _ => 4
   | .daTake => 6 | .daNil _ => 5 | .daZero _ => 4
   | .rqLock _ => 6 | .rqPrep _ => 5 | .rqInc _ => 4
   | .pubRecv _ => 3 | .pubSend _ => 2 | .unlock _ => 1
